@@ -60,6 +60,7 @@ def gen_plan(rng: random.Random, tier: str) -> dict:
             "region": rng.choice([None, "mix", "body", "header"]),
             "addon": rng.choice([None, "mix", "body", "header"]),
             "twice": rng.random() < 0.3,
+            "ser_faults": rng.random() < 0.3,
             # the GUI's message log as one more inspector: a field filter makes it parse every body it is shown
             "logger": rng.choice([None, None, "name", "field"]),
             # an addon that takes messages, holds the (still unparsed) copy while other traffic flows, then looks
@@ -77,9 +78,13 @@ def gen_plan(rng: random.Random, tier: str) -> dict:
     for r in cfg["regions"][0]:
         steps.append({"at": t, "op": "ucc", "v": 0, "r": r})
         t = round(t + 0.01, 4)
+    p_badsend = rng.choice([0.0, 0.0, 0.08])
     for _ in range(n):
         t = round(t + rng.choice([0.0, 0.001, 0.01, 0.05]), 4)
         r = rng.choice(cfg["regions"][0])
+        if rng.random() < p_badsend:
+            steps.append({"at": t, "op": "badsend", "v": 0, "r": r, "dir": rng.choice(["in", "out"])})
+            continue
         inbound = rng.random() < 0.5
         names = G.filler_names(inbound)
         if with_objects and rng.random() < 0.25:
@@ -206,6 +211,17 @@ class Inspectors:
             pin = L.parse_datagram(payload)
         except Exception:
             return
+        if self.cfg.get("ser_faults"):
+            # the encoder is shared by everything that is re-encoded here: an encode that fails half-way (somebody
+            # tried to send a message with a missing variable) must leave nothing behind for the next one
+            self.counter += 1
+            h = hashlib.blake2b(f"{self.cfg['seed']}/serfault/{self.counter}".encode(), digest_size=2).digest()
+            if h[0] % 5 == 0:
+                from hippolyzer.lib.base.message.message import Block, Message
+                try:
+                    self.ser.serialize(Message("ChatFromSimulator", Block("ChatData", FromName="someone")))
+                except Exception:
+                    self.res.fault("encode_failed_half_way")
         try:
             out = bytes(self.ser.serialize(message))
         except Exception as e:
